@@ -1,0 +1,71 @@
+//go:build verif
+
+package log
+
+// Machine-checked contracts for the gowp verifier (/verif). Comment-only; compiled only under the
+// build tag "verif"; declares nothing.
+//
+// Ghost file model. A ReadWriter (in production an *os.File) is identified by the object its interface value points
+// to; for it the ghost state records
+//   $fcontent  the bytes of the file (what a reader - or a restart after a clean shutdown - sees),
+//   $fdurable  the bytes a crash would leave (content as of the last successful Sync),
+//   $fpos      the handle's offset, $fappend  whether the handle was opened with O_APPEND.
+// The operating system and the file system are outside the proof: the contracts of the interface methods below are
+// the assumed behaviour of a file (trusted), at the granularity of one call.
+//@ ghost $fcontent (Array Int Str)
+//@ ghost $fdurable (Array Int Str)
+//@ ghost $fpos (Array Int Int)
+//@ ghost $fappend (Array Int Bool)
+
+// filewrite(c, pos, d): content after writing d at offset pos != len(c) (overwrite, or NUL padding when pos > len(c)).
+//@ ufun filewrite(c string, pos int, d string) string
+//@ spec wr(c string, pos int, app bool, d string) string = (app || pos == len(c)) ? c ++ d : filewrite(c, pos, d)
+
+//@ func (ReadWriter).Write trusted props C02,C09
+//@   ensures result1 == nil ==> $fcontent[ref(this)] == wr(old($fcontent[ref(this)]), old($fpos[ref(this)]), $fappend[ref(this)], bstr(p))
+//@   ensures result1 == nil ==> $fpos[ref(this)] == (old($fappend[ref(this)]) ? len(old($fcontent[ref(this)])) : old($fpos[ref(this)])) + len(p)
+//@   ensures forall r Ref :: r != ref(this) ==> $fcontent[r] == old($fcontent[r]) && $fpos[r] == old($fpos[r])
+//@   modifies $fcontent, $fpos
+
+//@ func (ReadWriter).Sync trusted props C02,C09
+//@   ensures result == nil ==> $fdurable[ref(this)] == $fcontent[ref(this)]
+//@   ensures forall r Ref :: r != ref(this) ==> $fdurable[r] == old($fdurable[r])
+//@   modifies $fdurable
+
+//@ func (ReadWriter).Truncate trusted props C09
+//@   ensures result == nil && size == 0 ==> $fcontent[ref(this)] == ""
+//@   ensures result != nil ==> $fcontent[ref(this)] == old($fcontent[ref(this)])
+//@   ensures forall r Ref :: r != ref(this) ==> $fcontent[r] == old($fcontent[r])
+//@   modifies $fcontent
+
+//@ func (ReadWriter).Seek trusted props C09
+//@   ensures result1 == nil && whence == 0 ==> $fpos[ref(this)] == offset
+//@   ensures forall r Ref :: r != ref(this) ==> $fpos[r] == old($fpos[r])
+//@   modifies $fpos
+
+//@ func (ReadWriter).Close trusted props C09
+//@   modifies nothing
+
+// selectrec(d): the RESP array ["SELECT", "<d>"] that switches the replay to database d.
+//@ spec selectrec(d int) string = "*2\r\n$6\r\nSELECT\r\n$" ++ (itoa(len(itoa(d))) ++ ("\r\n" ++ (itoa(d) ++ "\r\n")))
+
+//@ func (*Store).Sync props C02
+//@   ensures {C02} synced: result == nil && store.rw != nil ==> $fdurable[ref(store.rw)] == $fcontent[ref(store.rw)]
+//@   ensures content: forall r Ref :: $fcontent[r] == old($fcontent[r])
+//@   modifies $fdurable
+
+//@ func (*Store).Write props C02,C20
+//@   assumes appendmode: store.rw != nil ==> ($fappend[ref(store.rw)] || $fpos[ref(store.rw)] == len($fcontent[ref(store.rw)]))
+//@   ensures {C02,C20} logged: result == nil && store.rw != nil ==> $fcontent[ref(store.rw)] == ((database != old(store.currentDatabase)) ? (old($fcontent[ref(store.rw)]) ++ selectrec(database)) ++ bstr(command) : old($fcontent[ref(store.rw)]) ++ bstr(command))
+//@   ensures {C20} tracked: result == nil && store.rw != nil ==> store.currentDatabase == database
+//@   ensures {C02} always: result == nil && store.rw != nil && lower(store.strategy) == "always" ==> $fdurable[ref(store.rw)] == $fcontent[ref(store.rw)]
+//@   ensures {C02} nolog: store.rw == nil ==> result == nil && store.currentDatabase == old(store.currentDatabase)
+//@   ensures others: forall r Ref :: store.rw == nil || r != ref(store.rw) ==> $fcontent[r] == old($fcontent[r])
+//@   modifies store.currentDatabase, $fcontent, $fpos, $fdurable
+
+//@ func (*Store).Truncate props C09,C02,C20
+//@   requires store.rw != nil
+//@   ensures {C09,C20} header: result == nil ==> $fcontent[ref(store.rw)] == selectrec(store.currentDatabase) && $fdurable[ref(store.rw)] == $fcontent[ref(store.rw)]
+//@   ensures {C20} samedb: store.currentDatabase == old(store.currentDatabase)
+//@   ensures others: forall r Ref :: r != ref(store.rw) ==> $fcontent[r] == old($fcontent[r])
+//@   modifies $fcontent, $fpos, $fdurable
